@@ -64,7 +64,8 @@ RULE = ("per decoder: every byte string up to length k over the decoder's dispat
         "scanner; a hostile host at its own address that copies a good device's identifiers / names and answers first; "
         "HTTP messages with every Content-Length value from -(size+8) to +6, huge and non-numeric ones through all three "
         "HTTP receive loops; RAOP control datagrams (type x sequence numbers around the 2^16 wrap x counts up to 65535) "
-        "and timing datagrams; ~150 well-formed DNS messages with hostile record CONTENT (PTR/SRV targets and owners that are not "
+        "and timing datagrams; announcements that LACK what a later step expects (every TXT key the consumers of a service "
+        "type read dropped / emptied / without '=' / twice, no TXT / SRV / A / PTR, _device-info without model); ~150 well-formed DNS messages with hostile record CONTENT (PTR/SRV targets and owners that are not "
         "instance/host/type names, ports 0/65535, TXT without '=', empty / 1- / 2-label names, records owned by the bare "
         "type, mismatched record types, instance names the handlers split) from a host that answers every unicast query; "
         "every TXT key read by a protocol module x near-match strings of every extracted regex (in a child "
@@ -1439,7 +1440,49 @@ def content_payloads():
                            ("space-name", air, " "), ("dot-name", air, "a.b.c"), ("long-name", comp, "n" * 63)]:
         out.append(("instance-" + label, service(t, name, props=(b"model=AppleTV6,2", b"tp=UDP"))))
         out.append(("instance-" + label + "-port-0", service(t, name, port=0, props=(b"model=AppleTV6,2",))))
-    return [("content:" + label, [("wire", recs)]) for label, recs in out]
+    # content that LACKS what a post-processing step expects: for every service type, every TXT key its consumers
+    # read (extracted from the modules under test) dropped / emptied / given without '=' / given twice; no TXT
+    # record at all, an empty one; no SRV, no A record; `_device-info` records without / with odd `model`
+    from tools.gen import c05 as gen
+    keys = gen.txt_keys()
+    mrp_t = ["_mediaremotetv", "_tcp", "local"]
+    dmap_t = ["_touch-able", "_tcp", "local"]
+    types = {"pyatv.protocols.airplay": (air, "Evil"), "pyatv.protocols.raop": (raop, "EEEEEE000009@Evil"),
+             "pyatv.protocols.companion": (comp, "Evil"), "pyatv.protocols.mrp": (mrp_t, "Evil"),
+             "pyatv.protocols.dmap": (dmap_t, "DMAP0009_touch")}
+    enc = lambda d: tuple(("%s=%s" % kv).encode() for kv in d.items())
+    lack = []
+    for proto, (t, name) in types.items():
+        base = dict(BASE_PROPS[SERVICE_TYPES[proto]])
+        short = proto.split(".")[-1]
+        full = service(t, name, props=enc(base))
+        lack.append(("%s-no-txt" % short, [r for r in full if r[1] != T]))
+        lack.append(("%s-empty-txt" % short, service(t, name, props=())))
+        lack.append(("%s-no-srv" % short, [r for r in full if r[1] != S]))
+        lack.append(("%s-no-a" % short, service(t, name, props=enc(base), with_a=False)))
+        lack.append(("%s-no-ptr" % short, service(t, name, props=enc(base), with_ptr=False)))
+        lack.append(("%s-only-ptr" % short, [r for r in full if r[1] == P]))
+        for k in sorted(set(base) | set(keys.get(proto, [])), key=str.lower):
+            rest = {a: b for a, b in base.items() if a.lower() != k.lower()}
+            if len(rest) != len(base):
+                lack.append(("%s-drop-%s" % (short, k), service(t, name, props=enc(rest))))
+            lack.append(("%s-empty-%s" % (short, k), service(t, name, props=enc(rest) + (("%s=" % k).encode(),))))
+            lack.append(("%s-flag-%s" % (short, k), service(t, name, props=enc(rest) + (k.encode(),))))
+            lack.append(("%s-twice-%s" % (short, k), service(t, name, props=enc(base) + (("%s=zz" % k).encode(), ("%s=" % k.upper()).encode()))))
+    # `_device-info` (read when the responses are assembled, after all per-datagram handling) and `_sleep-proxy`
+    for label, props in [("empty-txt", ()), ("empty-string", (b"",)), ("other-keys", (b"osxvers=22",)), ("model-empty", (b"model=",)),
+                         ("model-flag", (b"model",)), ("model-twice", (b"model=J105aAP", b"model=X")), ("model-padded", (b"model=J105aAP\x00 ",)),
+                         ("model-non-utf8", (b"model=\xff\xfe",))]:
+        di = [(inst("Evil", info), T, txt(*props))]
+        lack.append(("device-info-%s" % label, di))
+        lack.append(("device-info-%s+airplay" % label, service(air, "Evil") + di))
+        lack.append(("device-info-%s+companion" % label, service(comp, "Evil", props=enc(BASE_PROPS["_companion-link._tcp.local"])) + di))
+    lack.append(("device-info-srv-only+airplay", service(air, "Evil") + [(inst("Evil", info), S, ("srv", 0, 0, 0, host))]))
+    lack.append(("device-info-ptr-only", [(info, P, ("name", inst("Evil", info)))]))
+    lack.append(("sleep-proxy-empty-txt", service(sleep, "70-35-60-63.1 Evil", port=0, props=())))
+    lack.append(("sleep-proxy-no-txt+airplay-port-0", [r for r in service(sleep, "70-35-60-63.1 Evil", port=0) if r[1] != T] + service(air, "Evil", port=0)))
+    return [("content:" + label, [("wire", recs)]) for label, recs in out] + \
+           [("content:lack-" + label, [("wire", recs)]) for label, recs in lack]
 
 
 def clone_payloads(devs):
@@ -1615,7 +1658,11 @@ def run_discovery(ctx, child, strings, culprits=()):
                 if ctx.thorough:
                     mine = [c for i, c in enumerate(contents) if ndev == (1 + (i + rep) % 4 if mode == "u" else 2 + (i + rep) % 2)]
                 else:
-                    mine = [c for i, c in enumerate(contents) if rep == 0 and (ndev == 2 + i % 2 if mode == "u" else ndev == 2 and i % 3 == 0)]
+                    # quick: per-key variants alternate between the scanners; `_device-info` / record-level ones go to both
+                    both = lambda c: "lack-" not in c[0] or "device-info" in c[0] or "-no-" in c[0] or "-only-" in c[0]
+                    mine = [c for i, c in enumerate(contents) if rep == 0 and (
+                        (ndev == 2 + i % 2 and (both(c) or i % 2 == 0)) if mode == "u" else
+                        (ndev == 2 and (i % 3 == 0 if "lack-" not in c[0] else both(c) or i % 2 == 1)))]
                 for payload in payloads + mine + clone_payloads(devs):
                     if payload[0].startswith("txt-string") and (ndev + rep) % 2 and not ctx.thorough:
                         continue
